@@ -1,21 +1,21 @@
 #!/bin/bash
 # tools/seed_eval.sh <dir-with-patch.diff,demo.rs> <PROP>...  : confirm a seeded change and run the checks on it
 D=$1; shift
-SW=/tmp/sw
-export CARGO_TARGET_DIR=/tmp/sw_target CARGO_NET_OFFLINE=true
+SW=${SEED_SCRATCH:-/tmp/sw}
+export CARGO_TARGET_DIR=${SW}_target CARGO_NET_OFFLINE=true
 git -C /repo worktree remove --force $SW >/dev/null 2>&1; rm -rf $SW
 git -C /repo worktree add -q --detach $SW HEAD || exit 3
 cd $SW
 mkdir -p tests; cp $D/demo.rs tests/demo.rs
 REL=""; grep -q "release" $D/meta.json 2>/dev/null && grep -qi "cargo test --offline --release" $D/meta.json && REL="--release"
 base=$(cargo test --offline $REL --test demo 2>&1 | grep -c "test result: ok")
-if ! git apply $D/patch.diff 2>/tmp/sw_apply.err; then echo "SEED $D: patch does not apply to current HEAD: $(head -2 /tmp/sw_apply.err)"; cd /; git -C /repo worktree remove --force $SW; exit 4; fi
+if ! git apply $D/patch.diff 2>${SW}_apply.err; then echo "SEED $D: patch does not apply to current HEAD: $(head -2 ${SW}_apply.err)"; cd /; git -C /repo worktree remove --force $SW; exit 4; fi
 rm -f tests/demo.rs
 suite=$(cargo test --offline 2>&1 | grep "test result" | tr '\n' ' ')
 cp $D/demo.rs tests/demo.rs
 withc=$(cargo test --offline $REL --test demo 2>&1 | grep -c "test result: FAILED")
 echo "SEED $D: demo passes on HEAD: $base ; suite with change: $suite ; demo fails with change: $withc"
 for P in "$@"; do
-  VERIF_EVIDENCE_DIR=/tmp/sw_ev VERIF_BUILD_DIR=/tmp/sw_build VERIF_REPO_SRC=$SW/src /verif/check $P; echo "  check $P rc=$?"
+  VERIF_EVIDENCE_DIR=${SW}_ev VERIF_BUILD_DIR=${SW}_build VERIF_REPO_SRC=$SW/src /verif/check $P; echo "  check $P rc=$?"
 done
 cd /; git -C /repo worktree remove --force $SW
